@@ -195,13 +195,29 @@ func genProg(r *vl.Rng, idx int, stats map[string]int) Prog {
 		nInc = 2 + r.Intn(2)
 	}
 	stats["includes"] += nInc
+	shared := nInc >= 2 && r.Chance(60)
+	if shared {
+		stats["programs_with_same_named_definitions_in_includes"]++
+	}
 	main := IDLFile{Name: fmt.Sprintf("main%d.thrift", idx)}
 	var refs, enums, excs, svcs []string
 	var incs []IDLFile
 	for i := 0; i < nInc; i++ {
 		base := fmt.Sprintf("inc%d_%d", idx, i)
 		f := IDLFile{Name: base + ".thrift"}
-		f.Lines = append(f.Lines, g.namespaces(fmt.Sprintf("p%d.inc%d", idx, i))...)
+		pkg := fmt.Sprintf("p%d.inc%d", idx, i)
+		if shared {
+			pkg = fmt.Sprintf("p%d.g%d.shared%d", idx, i/2, i%2) // pairs of packages with the same last element
+		}
+		f.Lines = append(f.Lines, g.namespaces(pkg)...)
+		if shared { // the same names in every include, used side by side by the main file
+			f.Lines = append(f.Lines, "enum Kind { A = 1, B = 2 }", "struct Shared { 1: string a, 2: Kind k }"+g.anns(0, 2),
+				"exception Rejected { 1: string msg }", "exception Timeout { 1: i32 ms }",
+				fmt.Sprintf(`const string NAME = "n%d"`, i), "typedef map<string,Shared> Alias")
+			refs = append(refs, base+".Shared", base+".Alias")
+			enums = append(enums, base+".Kind")
+			excs = append(excs, base+".Rejected", base+".Timeout")
+		}
 		en := fmt.Sprintf("IE%d", i)
 		f.Lines = append(f.Lines, g.enumLine(en))
 		f.Lines = append(f.Lines, g.structLine("struct", fmt.Sprintf("IS%d", i), nil, []string{en}, 2+r.Intn(4)))
